@@ -25,6 +25,7 @@ def replay(text, k, present):
 
 def run(chk):
     thorough = chk.tier == 'thorough'
+    chk.bounds['families added after seeded changes'] = 'wild-cards in repeated sub-formulas inside restricted scopes; native fallback (enumeration) only if a part is unexplored'
     chk.bounds.update({'strings': f'every string of <= {3 if thorough else 2} symbolic characters through model_check_multiple_extended_formulae executed from MIR (parser .. evaluation on the symbolic 2-variable model .. sanitizing), k=1',
                        'templates': f'{len(TL.C14_TEMPLATES)} formulas with one (thorough: two) symbolic character substituted at every position, k=2',
                        'context / k': f'{len(TL.C14_EXT)} extended formulas x every subset of the context labels x k in 0..3',
